@@ -78,6 +78,21 @@ func runSched(in schedInput) map[string]any {
 			}
 			g.Disarm(window) // if the target was held in the window it parks only now
 		default:
+			if which == "deque" && dequeBlocking[st.Op] {
+				// which of several blocked operations an item resolves is the scheduler's choice, so the
+				// real run may still have a waiter of this class where the spec's run had none.  Two
+				// waiters on one Deque cond busy-loop (never quiescent, not a listed property): the
+				// schedule ends here; the history recorded so far is complete and is still validated.
+				clash := false
+				for pid, p := range pend {
+					if !p.op.Done() && dequeBlocking[in.Beh[pid-1].Op] && dequeClass(in.Beh[pid-1].Op) == dequeClass(st.Op) {
+						clash = true
+					}
+				}
+				if clash {
+					return map[string]any{"n": in.N, "ok": true, "truncated": k, "hist": append(hist, rec.Events()...)}
+				}
+			}
 			ctx, cancel := context.WithCancel(context.Background())
 			if st.Window {
 				g.Arm(window)
@@ -110,6 +125,8 @@ func runSched(in schedInput) map[string]any {
 	}
 	return map[string]any{"n": in.N, "ok": true, "hist": append(hist, rec.Events()...)}
 }
+
+var dequeBlocking = map[string]bool{"wfront": true, "wback": true, "drecv": true, "wpushf": true, "wpushb": true, "dsend": true}
 
 func dequeClass(op string) int {
 	switch op {
